@@ -24,7 +24,8 @@ REQUIRED_THEOREMS = [
     "Acn.C08.gen_eps", "Acn.C08.sorted_by_key", "Acn.C08.discrete_is_max", "Acn.C08.short_circuit",
     "Acn.C08.bisection_within_eps", "Acn.C08.feasible_set_is_interval", "Acn.C08.bisection_within_eps_alg",
     "Acn.C08.greedy_sequential", "Acn.C08.rr_stop_reason", "Acn.C08.rr_continues",
-    "Acn.C08.rr_measure_decreases", "Acn.C08.rr_terminates", "Acn.C08.uncontrolled_spec",
+    "Acn.C08.rr_measure_decreases", "Acn.C08.rr_terminates", "Acn.C08.uncontrolled_lookup",
+    "Acn.C08.uncontrolled_spec", "Acn.C08.uncontrolled_mem",
 ]
 BUDGET = {"quick": 700, "thorough": 5000, "search": 1000}
 TRUSTED = B.TRUSTED + ["ChargingNetwork.is_feasible as the feasibility reference of the oracle (C06)"]
